@@ -1,5 +1,5 @@
 (** Content/Run.v — harness entry points of the content-stream model (one per mode). *)
-From PdfV Require Import Base.Prelude Gen.Generated Content.Model Content.Canon.
+From PdfV Require Import Base.Prelude Gen.Generated Content.Model Content.Canon Content.Bytes.
 
 (* fields: the operation list in canonical atoms -> the bytes serialize_ops writes *)
 Definition run_ops_serialize (fs : list bytes) : res (list bytes) :=
@@ -12,3 +12,16 @@ Definition run_ops_parse (fs : list bytes) : res (list bytes) :=
 
 (* serialize, then parse what the writer's lines lex to: the round trip at token level *)
 Definition toks_of_line (args : list prim) (k : kwd) : list tok := List.map TObj args ++ [TWord (kw_name k)].
+
+(* fields: the content stream's bytes (the same field the implementation gets) -> the operation list parse_ops
+   returns; the token loop runs on the shared lexer / parser models (Content/Bytes.v) *)
+Definition run_ops_parse_bytes (fs : list bytes) : res (list bytes) :=
+  match fs with
+  | [data] => do ops <- parse_bytes data; Ok (enc_ops ops)
+  | [] => do ops <- parse_bytes []; Ok (enc_ops ops)
+  | _ => Err E_CANON
+  end.
+
+(* serialize_ops, then parse_ops on the bytes written (the implementation's ops_roundtrip) *)
+Definition run_ops_roundtrip (fs : list bytes) : res (list bytes) :=
+  do ops <- dec_ops fs; do b <- ser_ops ops; do ops' <- parse_bytes b; Ok (enc_ops ops').
